@@ -360,6 +360,46 @@ example :
     tlookup t 254 = some [65] ∧ tlookup t 255 = some [65] ∧ tlookup t 257 = some [66] ∧ tlookup t (-1) = some [66] ∧
       tlookup t 0 = none ∧ tlookup t 70 = some [70] := by decide
 
+/-! ## Widths bounds: inside / outside `FirstChar … FirstChar + len(Widths) - 1` -/
+
+/-- Inside the range of the Widths array the advance is `Widths[code - FirstChar]` times the scale - whatever the
+font's encoding, ToUnicode map, metrics or MissingWidth say (LastChar is not consulted). -/
+theorem width_in_range (T : Tables) (fd : FontDict) (code : Int) (ws : List Rat) (hw : fd.widths = some ws)
+    (h1 : fd.firstChar.getD 0 ≤ code) (h2 : code < fd.firstChar.getD 0 + ws.length) :
+    ∃ w, ws[(code - fd.firstChar.getD 0).toNat]? = some w ∧
+      glyphAdv (modelFont T fd) code = w * widthScale fd := by
+  have hlt : (code - fd.firstChar.getD 0).toNat < ws.length := by omega
+  refine ⟨ws[(code - fd.firstChar.getD 0).toNat], List.getElem?_eq_getElem hlt, ?_⟩
+  rw [width_of_unicode]
+  unfold specWidthOf widthsEntry
+  simp [hw, h1, List.getElem?_eq_getElem hlt]
+
+/-- Outside that range (or without Widths) the advance is the standard-14 metric of the code's character, else
+MissingWidth (0 without a descriptor entry), times the scale. -/
+theorem width_out_of_range (T : Tables) (fd : FontDict) (code : Int)
+    (h : fd.widths = none ∨ ∃ ws, fd.widths = some ws ∧
+      (code < fd.firstChar.getD 0 ∨ fd.firstChar.getD 0 + ws.length ≤ code)) :
+    glyphAdv (modelFont T fd) code =
+      (match std14MetricOf T fd (toUnichr (modelFont T fd) code) with
+       | some w => w
+       | none => missingWidth fd) * widthScale fd := by
+  rw [width_of_unicode]
+  unfold specWidthOf
+  have he : widthsEntry fd code = none := by
+    unfold widthsEntry
+    rcases h with h | ⟨ws, hw, h⟩
+    · simp [h]
+    · simp only [hw]
+      rcases h with h | h
+      · have : ¬ fd.firstChar.getD 0 ≤ code := by omega
+        simp [this]
+      · by_cases h0 : fd.firstChar.getD 0 ≤ code
+        · have : ws.length ≤ (code - fd.firstChar.getD 0).toNat := by omega
+          simp [h0, List.getElem?_eq_none this]
+        · simp [h0]
+  rw [he]
+  rfl
+
 /-! ## The regenerated tables of pdfminer -/
 
 /-- The tables regenerated from glyphlist.py / latin_enc.py satisfy the table facts (kernel computation over
@@ -824,6 +864,14 @@ example : specTextP T0 fdLo 65 = [0xE9] := by decide +kernel                 -- 
 example : specTextP T0 fdLo 66 = specPlaceholder 66 := by decide +kernel     -- (D2) unknown component: undefined
 example : glyphText (modelFont T0 fdLo) 65 = [0xE9] := by
   rw [C06_text_precedence_all T0 example_tables_ok fdLo 65]; decide +kernel
+
+-- non-vacuity on `fd0` (FirstChar 66, two widths): 66 and 67 inside, 65 and 68 outside
+example : ∃ w, ([500, 600] : List Rat)[((67 : Int) - fd0.firstChar.getD 0).toNat]? = some w ∧
+    glyphAdv (modelFont T0 fd0) 67 = w * widthScale fd0 :=
+  width_in_range T0 fd0 67 [500, 600] rfl (by decide) (by decide)
+example : glyphAdv (modelFont T0 fd0) 67 = 600 / 1000 := by decide +kernel
+example : glyphAdv (modelFont T0 fd0) 68 = 250 / 1000 := by decide +kernel     -- MissingWidth
+example : glyphAdv (modelFont T0 fd0) 65 = 250 / 1000 := by decide +kernel     -- below FirstChar
 
 -- the instances for pdfminer's own tables are not vacuous either (the first glyph-list entry keeps the kernel
 -- lookup short; names deeper in the 4 281-entry list cost minutes of String -> List Char conversion)
